@@ -295,6 +295,11 @@ func genExcCases(c *Ctx) []json.RawMessage {
 		for _, p := range []string{"", "p: ", "Base read field 1 'LogID' error: "} {
 			out = append(out, mustJSON(ExcCase{Fn: "prepend", Prefix: p, In: d}))
 		}
+		if d.UID%5 == 0 || d.Kind == "plain" || d.Kind == "fmtwrap" || d.Kind == "uncmp" { // prefixes a formatting function would interpret
+			for _, p := range []string{"%", "%%", "%d ", "%s", "100% of ", "%!v(", "%[2]s", "%w: ", "\\n\\t%", strings.Repeat("pfx ", 3000)} {
+				out = append(out, mustJSON(ExcCase{Fn: "prepend", Prefix: p, In: d}))
+			}
+		}
 		out = append(out, mustJSON(ExcCase{Fn: "wrap", In: d}))
 	}
 	// foreign types that embed a library exception and override Error() / TypeId(): still foreign for PrependError
